@@ -47,7 +47,7 @@ def kref_call(c):
     o = op["op"]
     if o == "create":
         k = op["kind"]
-        d["sys"] = {"file": "mknod", "fifo": "mkfifo", "dir": "mkdir", "lnk": "symlink", "hard": "link"}[k]
+        d["sys"] = {"file": "mknod", "fifo": "mkfifo", "dir": "mkdir", "lnk": "symlink", "hard": "link", "chr": "mkchr", "blk": "mkblk"}[k]
         d["mode"] = 0o644 if k != "dir" else 0o755
         if k == "lnk":
             d["target"] = "/".join(c["path2"])
@@ -73,6 +73,18 @@ def kref_call(c):
 def shape_of_snapshot(snap, first_new):
     kinds = {i["id"]: i["k"] for i in snap["inodes"]}
     return frozenset((d["p"] if d["p"] < first_new else "NEW", d["n"], d["c"] if d["c"] < first_new else "NEW", kinds.get(d["c"])) for d in snap["dents"])
+
+
+def new_attrs(snap, first_new):
+    """attributes of the objects a call created (everything the *at call determines besides the name): kind, permission
+    bits, link body, device number, link count"""
+    ino = {i["id"]: i for i in snap["inodes"]}
+    out = set()
+    for d in snap["dents"]:
+        if d["c"] >= first_new:
+            i = ino.get(d["c"], {})
+            out.add((d["p"] if d["p"] < first_new else "NEW", d["n"], i.get("k"), i.get("mode"), i.get("b"), i.get("rdev"), i.get("nlink") if i.get("k") != "dir" else None))
+    return frozenset(out)
 
 
 def shape_of_model(c, newino):
@@ -155,7 +167,7 @@ def run(prop, tier_, sample=None, jobs=12, newino=20):
             raise ToolError("pv case failed: %s" % json.dumps(r)[:400])
         first_new = max([i["id"] for i in r["init"]["inodes"]]) + 1
         res0 = r["out"][0]["results"][0]
-        per[ci][who] = dict(out=outcome(res0, first_new), shape=shape_of_snapshot(r["final"], first_new), raw=res0,
+        per[ci][who] = dict(out=outcome(res0, first_new), shape=shape_of_snapshot(r["final"], first_new), raw=res0, newattrs=new_attrs(r["final"], first_new),
                             init_shape=shape_of_snapshot(r["init"], first_new))
     return dict(cases=cases, per=per, trees=trees, design=design, gen=gen, total=total, build_s=build_s, t0=t0, newino=newino)
 
@@ -184,14 +196,16 @@ def judge_c14(data, v, stats, samples):
             canon = (lambda e: {"InvalidArgument": "EINVAL", "SAFETY": "EXDEV"}.get(e, e)) if c.get("api") == "c" else (lambda e: e)
             same_out = got["out"][0] == truth_out[0] and (got["out"][0] != "err" or canon(got["out"][1]) == canon(truth_out[1])) and \
                 (c["op"]["op"] != "create_file" or got["out"][0] != "ok" or got["out"] == truth_out)
-            if same_out and got["shape"] == truth_shape:
+            same_attrs = ref is None or got["newattrs"] == ref["newattrs"]
+            if same_out and got["shape"] == truth_shape and same_attrs:
                 stats["agree_" + bname] += 1
                 continue
             sig = dict(check="rootops-static", backend=bname, op=c["op"]["op"], final_name=c["split"]["name"], path=path, path2=path2, tree=c["tree"],
                        got=list(got["out"]), want=list(truth_out), opdetail=c["op"])
             desc = ("[C API] " if c.get("api") == "c" else "") + "%s backend: %s(%r%s) on tree %s: outcome %s, final tree %s; the raw *at call on (in-root parent %r, name %r) gives %s" % (
                 bname, json.dumps(c["op"]), path, (", %r" % path2) if path2 else "", c["tree"], got["out"],
-                "as expected" if got["shape"] == truth_shape else "DIFFERS (%s)" % sorted(got["shape"] ^ truth_shape, key=str)[:4],
+                ("as expected" if same_attrs else "has the right entries but the created object differs in (kind, mode, link body, device, nlink): library %s, raw call %s" % (sorted(got["newattrs"], key=str), sorted(ref["newattrs"], key=str)))
+                if got["shape"] == truth_shape else "DIFFERS (%s)" % sorted(got["shape"] ^ truth_shape, key=str)[:4],
                 "/".join(c["split"]["dir"]), c["split"]["name"], truth_out)
             replay = dict(id="replay", tree=[node_to_pv(n) for n in data["trees"][c["tree"]]["nodes"] if n["k"] != "hard"], feat=dict(FEATS)[bname], trace=False, calls=[dict(lib_call(c), api=c.get("api", "rust"))])
             v.violation(sig, desc, replay)
